@@ -135,3 +135,73 @@ func floodPart(t vcore.Failer) {
 		vcore.Report(t, runFlood(c), map[string]any{"flood": fmt.Sprintf("%d/%d", c.N, c.HoldMs), "case": c})
 	}
 }
+
+// ---------------------------------------------------------------- a report whose first transmission is lost
+//
+// "Delivered ... with volume and packet counters exactly as measured" also holds for the copy that gets through: several
+// report requests are outstanding (one multicast message with reports for N sessions), and each is retransmitted once - what
+// the SMF receives then must be, octet for octet, the request it would have received the first time.
+
+func runRetrans(n int) *vcore.Violation {
+	f, err := fullstack.NewFull(fullstack.FullOpts{Nodes: 1, MaxRetrans: 2})
+	if err != nil {
+		panic("infrastructure: " + err.Error())
+	}
+	var v *vcore.Violation
+	defer func() { _ = f.Close() }()
+	r := f.R
+	if o := r.Step(stack.Op{Kind: "assoc", Peer: 0, Node: 0, Sess: -1}); o.Dead != nil || o.Stuck {
+		return vcore.Violatef("prefix", "association failed")
+	}
+	var reps []simkernel.MReport
+	for i := 0; i < n; i++ {
+		rules := []stack.RuleOp{{Verb: "create", Kind: "URR", ID: 1, Method: 2, Trig: 0x02}, {Verb: "create", Kind: "PDR", ID: 1, Prec: 1, URRs: []uint32{1}}}
+		o := r.Step(stack.Op{Kind: "est", Peer: 0, Node: 0, Sess: -1, CP: uint64(0x3000 + i), Rules: rules})
+		if o.Dead != nil || o.NewSess < 0 || !r.Sess[o.NewSess].Known {
+			return vcore.Violatef("prefix", "establishment %d not accepted", i)
+		}
+		reps = append(reps, simkernel.MReport{SEID: r.Sess[o.NewSess].UP, URR: 1, Usage: simkernel.Usage{Trigger: 1 << 1, TotVol: uint64(1000 + i), UlVol: uint64(10 + i), DlVol: uint64(20 + i),
+			Start: time.Unix(1700000000, 0), End: time.Unix(1700000100, 0)}})
+	}
+	if err := f.D.K.SendReports(reps); err != nil {
+		panic(err)
+	}
+	if !f.D.K.Flush(10 * time.Second) {
+		return vcore.Violatef("mcast-not-consumed", "the listener did not take the REPORT message")
+	}
+	o := r.Step(stack.Op{Kind: "hb", Peer: 0, Sess: -1})
+	if o.Dead != nil || o.Stuck {
+		return vcore.Violatef("stuck", "after the REPORT message")
+	}
+	first := map[uint32][]byte{}
+	for _, s := range o.SRRs {
+		first[s.Seq] = s.B
+	}
+	if len(first) != n {
+		return vcore.Violatef("srr-count", "one REPORT message with reports for %d sessions produced %d Session Report Requests", n, len(first))
+	}
+	r.Pending[0] = nil
+	for id, e := range f.S.Srv.VerifTxTable() {
+		o := r.Step(stack.Op{Kind: "expire_tx", TrID: id})
+		if o.Dead != nil || o.Stuck {
+			return vcore.Violatef("stuck", "expiry")
+		}
+		if len(o.Rx[0]) != 1 {
+			return vcore.Violatef("retrans-count", "the timer of report request seq %d expired: %d datagrams", e.Seq, len(o.Rx[0]))
+		}
+		if string(o.Rx[0][0].B) != string(first[e.Seq&0xffffff]) {
+			v = vcore.Violatef("retransmitted-report-differs", "%d report requests outstanding; the retransmission of request seq %d is %x, its first copy was %x: an SMF that missed the first copy never gets this session's report", n, e.Seq, o.Rx[0][0].B, first[e.Seq&0xffffff])
+			return v
+		}
+		r.Pending[0] = nil
+	}
+	return nil
+}
+
+func retransPart(t vcore.Failer) {
+	for _, n := range []int{1, 2, 5} {
+		vcore.E.Eval()
+		vcore.E.Class("reports_retransmitted_with_several_outstanding")
+		vcore.Report(t, runRetrans(n), map[string]any{"retrans": n})
+	}
+}
